@@ -24,6 +24,7 @@ import (
 	"verif/props/c12"
 	"verif/props/c13"
 	"verif/props/c14"
+	"verif/props/c15"
 	"verif/props/c16"
 	"verif/props/c17"
 	"verif/props/c20"
@@ -49,6 +50,7 @@ var props = map[string]prop{
 	"C12": {"exploration", c12.Run, c12.Replay},
 	"C13": {"exploration", c13.Run, c13.Replay},
 	"C14": {"exploration", c14.Run, c14.Replay},
+	"C15": {"exploration", c15.Run, c15.Replay},
 	"C16": {"model_checking", c16.Run, c16.Replay},
 	"C17": {"exploration", c17.Run, c17.Replay},
 	"C20": {"exploration", c20.Run, c20.Replay},
